@@ -1167,8 +1167,13 @@ theorem struct_BillCalcSrc_LineDiscount_as_mapped :
 
 theorem struct_BillCalcSrc_org_Item_as_mapped :
     BillCalcSrc.struct_org_Item = [("Identify", "uuid.Identify"), ("Ref", "cbc.Code"), ("Key", "cbc.Key"), ("Name", "string"), ("Identities", "[]*org.Identity"), ("Description", "string"), ("Currency", "currency.Code"), ("Price", "*num.Amount"), ("AltPrices", "[]*currency.Amount"), ("Unit", "org.Unit"), ("Origin", "l10n.ISOCountryCode"), ("Ext", "tax.Extensions"), ("Meta", "cbc.Meta")] ∧
-    BillCalcSrc.structLean_org_Item = ("Item", ["Currency", "Price"]) ∧
-    BillCalcSrc.structOmitted_org_Item = ["Identify", "Ref", "Key", "Name", "Identities", "Description", "AltPrices", "Unit", "Origin", "Ext", "Meta"] := by decide
+    BillCalcSrc.structLean_org_Item = ("Item", ["Currency", "Price", "AltPrices"]) ∧
+    BillCalcSrc.structOmitted_org_Item = ["Identify", "Ref", "Key", "Name", "Identities", "Description", "Unit", "Origin", "Ext", "Meta"] := by decide
+
+theorem struct_BillCalcSrc_currency_Amount_as_mapped :
+    BillCalcSrc.struct_currency_Amount = [("Label", "string"), ("Currency", "currency.Code"), ("Value", "num.Amount")] ∧
+    BillCalcSrc.structLean_currency_Amount = ("CurAmount", ["Currency", "Value"]) ∧
+    BillCalcSrc.structOmitted_currency_Amount = ["Label"] := by decide
 
 theorem struct_BillCalcSrc_SubLine_as_mapped :
     BillCalcSrc.struct_SubLine = [("Identify", "uuid.Identify"), ("Index", "int"), ("Quantity", "num.Amount"), ("Identifier", "*org.Identity"), ("Period", "*cal.Period"), ("Order", "cbc.Code"), ("Cost", "cbc.Code"), ("Item", "*org.Item"), ("Sum", "*num.Amount"), ("Discounts", "[]*LineDiscount"), ("Charges", "[]*LineCharge"), ("Total", "*num.Amount"), ("Notes", "[]*org.Note")] ∧
@@ -1218,17 +1223,17 @@ theorem struct_PayCalcSrc_Terms_as_mapped :
     num.Percentage, currency.Def and tax.ApplyRoundingRule as the operations of
     Model/Calc.lean); no unsigned subtraction, no condition-controlled loop, no map -/
 theorem assumptions_BillCalcSrc_as_reviewed :
-    BillCalcSrc.translated = ["calculateLineSum", "calculateLineDiscounts", "calculateLineCharges", "determineSubLinePrecision", "LineDiscount.round", "LineCharge.round", "SubLine.round", "Line.round", "roundLines", "calculateDiscounts", "calculateDiscountSum", "Discount.round", "roundDiscounts", "calculateCharges", "calculateChargeSum", "Charge.round", "roundCharges", "Totals.reset", "Totals.round", "PaymentDetails.calculateAdvances", "PaymentDetails.totalAdvance"] ∧
-    BillCalcSrc.nonNilElems = ["[]*Charge", "[]*Discount", "[]*Line", "[]*LineCharge", "[]*LineDiscount", "[]*SubLine", "[]*pay.Advance"] ∧
-    BillCalcSrc.inOutParams = [("calculateLineDiscounts", "discounts"), ("calculateLineCharges", "charges"), ("LineDiscount.round", "d"), ("LineCharge.round", "c"), ("SubLine.round", "sl"), ("Line.round", "l"), ("roundLines", "lines"), ("calculateDiscounts", "lines"), ("Discount.round", "m"), ("roundDiscounts", "lines"), ("calculateCharges", "lines"), ("Charge.round", "m"), ("roundCharges", "lines"), ("Totals.reset", "t"), ("Totals.round", "t"), ("PaymentDetails.calculateAdvances", "p"), ("PaymentDetails.totalAdvance", "p")] ∧
+    BillCalcSrc.translated = ["calculateLineSum", "calculateLineDiscounts", "calculateLineCharges", "determineSubLinePrecision", "LineDiscount.round", "LineCharge.round", "SubLine.round", "Line.round", "roundLines", "calculateDiscounts", "calculateDiscountSum", "Discount.round", "roundDiscounts", "calculateCharges", "calculateChargeSum", "Charge.round", "roundCharges", "Totals.reset", "Totals.round", "PaymentDetails.calculateAdvances", "PaymentDetails.totalAdvance", "calculateLineItemPrice", "calculateSubLine", "calculateLine", "calculateLines"] ∧
+    BillCalcSrc.nonNilElems = ["[]*Charge", "[]*Discount", "[]*Line", "[]*LineCharge", "[]*LineDiscount", "[]*SubLine", "[]*currency.Amount", "[]*currency.ExchangeRate", "[]*pay.Advance"] ∧
+    BillCalcSrc.inOutParams = [("calculateLineDiscounts", "discounts"), ("calculateLineCharges", "charges"), ("LineDiscount.round", "d"), ("LineCharge.round", "c"), ("SubLine.round", "sl"), ("Line.round", "l"), ("roundLines", "lines"), ("calculateDiscounts", "lines"), ("Discount.round", "m"), ("roundDiscounts", "lines"), ("calculateCharges", "lines"), ("Charge.round", "m"), ("roundCharges", "lines"), ("Totals.reset", "t"), ("Totals.round", "t"), ("PaymentDetails.calculateAdvances", "p"), ("PaymentDetails.totalAdvance", "p"), ("calculateLineItemPrice", "item"), ("calculateSubLine", "sl"), ("calculateLine", "l"), ("calculateLines", "lines")] ∧
     BillCalcSrc.effectPrimitives = [("pay.Advance.CalculateFrom", "GoblVerif.Generated.PayCalcSrc.Advance_CalculateFrom o sub {0} {1}")] ∧
     BillCalcSrc.contextParams = [("o", "GoblVerif.Calc.Ops"), ("sub", "String → Nat")] ∧
-    BillCalcSrc.effectLoops = [("calculateLineDiscounts", "discounts"), ("calculateLineCharges", "charges"), ("Line.round", "l.Discounts"), ("Line.round", "l.Charges"), ("Line.round", "l.Breakdown"), ("Line.round", "l.Substituted"), ("roundLines", "lines"), ("calculateDiscounts", "lines"), ("roundDiscounts", "lines"), ("calculateCharges", "lines"), ("roundCharges", "lines"), ("PaymentDetails.calculateAdvances", "p.Advances"), ("PaymentDetails.totalAdvance", "p.Advances")] ∧
-    BillCalcSrc.ptrWrites = [("Totals.round", "*t.Discount"), ("Totals.round", "*t.Charge"), ("Totals.round", "*t.TaxIncluded"), ("Totals.round", "*t.Advances"), ("Totals.round", "*t.Due")] ∧
-    BillCalcSrc.droppedWrites = [("calculateDiscounts", "l.Index"), ("calculateCharges", "l.Index")] ∧
-    BillCalcSrc.inOutCalls = [("Line.round", "d.round(e)"), ("Line.round", "c.round(e)"), ("Line.round", "sl.round(e)"), ("roundLines", "l.round()"), ("roundDiscounts", "l.round(cur)"), ("roundCharges", "l.round(cur)"), ("PaymentDetails.calculateAdvances", "a.CalculateFrom(totalWithTax)")] ∧
-    BillCalcSrc.addrOfAssigned = [("calculateDiscountSum", "&total"), ("calculateChargeSum", "&total"), ("PaymentDetails.totalAdvance", "&sum")] ∧
-    BillCalcSrc.primitives = [ ("currency.Code.Def", "(some (sub {0}) : Option Nat)"), ("currency.Def.RescaleUp", "GoblVerif.Calc.up {1} ({0}.get!)"), ("currency.Def.Subunits", "{0}"), ("currency.Def.Zero", "(GoblVerif.Amount.mk 0 ({0}.get!))"), ("num.Amount.Add", "GoblVerif.Calc.add o {0} {1}"), ("num.Amount.Exp", "{0}.exp"), ("num.Amount.MatchPrecision", "GoblVerif.CalcSrc.matchPrecision {0} {1}"), ("num.Amount.Multiply", "o.mul {0} {1}"), ("num.Amount.Rescale", "o.rescale {0} {1}"), ("num.Amount.RescaleDown", "GoblVerif.Calc.down o {0} {1}"), ("num.Amount.RescaleUp", "GoblVerif.Calc.up {0} {1}"), ("num.Amount.Subtract", "GoblVerif.Calc.sub o {0} {1}"), ("num.Percentage.IsZero", "GoblVerif.Calc.pctIsZero {0}"), ("num.Percentage.Of", "GoblVerif.Calc.pctOf o {0} {1}"), ("tax.ApplyRoundingRule", "GoblVerif.CalcSrc.applyRoundingRule o sub {0} {1} {2}")] ∧
+    BillCalcSrc.effectLoops = [("calculateLineDiscounts", "discounts"), ("calculateLineCharges", "charges"), ("Line.round", "l.Discounts"), ("Line.round", "l.Charges"), ("Line.round", "l.Breakdown"), ("Line.round", "l.Substituted"), ("roundLines", "lines"), ("calculateDiscounts", "lines"), ("roundDiscounts", "lines"), ("calculateCharges", "lines"), ("roundCharges", "lines"), ("PaymentDetails.calculateAdvances", "p.Advances"), ("PaymentDetails.totalAdvance", "p.Advances"), ("calculateLine", "l.Substituted"), ("calculateLine", "l.Breakdown"), ("calculateLines", "lines")] ∧
+    BillCalcSrc.ptrWrites = [("Totals.round", "*t.Discount"), ("Totals.round", "*t.Charge"), ("Totals.round", "*t.TaxIncluded"), ("Totals.round", "*t.Advances"), ("Totals.round", "*t.Due"), ("calculateLine", "l.Item.Currency"), ("calculateLine", "l.Item.Price"), ("calculateLine", "l.Item.AltPrices")] ∧
+    BillCalcSrc.droppedWrites = [("calculateDiscounts", "l.Index"), ("calculateCharges", "l.Index"), ("calculateLine", "sl.Index"), ("calculateLines", "l.Index")] ∧
+    BillCalcSrc.inOutCalls = [("Line.round", "d.round(e)"), ("Line.round", "c.round(e)"), ("Line.round", "sl.round(e)"), ("roundLines", "l.round()"), ("roundDiscounts", "l.round(cur)"), ("roundCharges", "l.round(cur)"), ("PaymentDetails.calculateAdvances", "a.CalculateFrom(totalWithTax)"), ("calculateSubLine", "calculateLineItemPrice(sl.Item, cur, rates)"), ("calculateSubLine", "calculateLineDiscounts(sl.Discounts, sum, total, cur, rr)"), ("calculateSubLine", "calculateLineCharges(sl.Charges, sl.Quantity, sum, total, cur, rr)"), ("calculateLine", "calculateSubLine(sl, cur, rates, rr)"), ("calculateLine", "calculateLineItemPrice(l.Item, cur, rates)"), ("calculateLine", "calculateLineDiscounts(l.Discounts, sum, total, cur, rr)"), ("calculateLine", "calculateLineCharges(l.Charges, l.Quantity, sum, total, cur, rr)"), ("calculateLines", "calculateLine(l, cur, rates, rr)")] ∧
+    BillCalcSrc.addrOfAssigned = [("calculateDiscountSum", "&total"), ("calculateChargeSum", "&total"), ("PaymentDetails.totalAdvance", "&sum"), ("calculateLineItemPrice", "&price"), ("calculateSubLine", "&sum"), ("calculateSubLine", "&total"), ("calculateLine", "&np"), ("calculateLine", "&sum"), ("calculateLine", "&total")] ∧
+    BillCalcSrc.primitives = [ ("currency.Code.Def", "(some (sub {0}) : Option Nat)"), ("currency.Convert", "GoblVerif.CalcSrc.convertRates o sub {0} {1} {2} {3}"), ("currency.Def.RescaleUp", "GoblVerif.Calc.up {1} ({0}.get!)"), ("currency.Def.Subunits", "{0}"), ("currency.Def.Zero", "(GoblVerif.Amount.mk 0 ({0}.get!))"), ("num.Amount.Add", "GoblVerif.Calc.add o {0} {1}"), ("num.Amount.Exp", "{0}.exp"), ("num.Amount.MatchPrecision", "GoblVerif.CalcSrc.matchPrecision {0} {1}"), ("num.Amount.Multiply", "o.mul {0} {1}"), ("num.Amount.Rescale", "o.rescale {0} {1}"), ("num.Amount.RescaleDown", "GoblVerif.Calc.down o {0} {1}"), ("num.Amount.RescaleUp", "GoblVerif.Calc.up {0} {1}"), ("num.Amount.Subtract", "GoblVerif.Calc.sub o {0} {1}"), ("num.Percentage.IsZero", "GoblVerif.Calc.pctIsZero {0}"), ("num.Percentage.Of", "GoblVerif.Calc.pctOf o {0} {1}"), ("strconv.Itoa", "(toString {0})"), ("tax.ApplyRoundingRule", "GoblVerif.CalcSrc.applyRoundingRule o sub {0} {1} {2}")] ∧
     BillCalcSrc.natSubs = [] ∧
     BillCalcSrc.fuelChecks = [] ∧
     BillCalcSrc.mapRanges = [] ∧
@@ -1236,7 +1241,17 @@ theorem assumptions_BillCalcSrc_as_reviewed :
     BillCalcSrc.mapNilTests = [] := by decide
 
 theorem namedTypes_BillCalcSrc_as_reviewed :
-    BillCalcSrc.namedTypes.map (fun t => (t.1, t.2.2)) = [("cbc.Key", "String"), ("currency.Code", "String"), ("currency.Def", "Nat"), ("num.Amount", "GoblVerif.Amount"), ("num.Percentage", "GoblVerif.Pct"), ("tax.Set", "List GoblVerif.Calc.Combo"), ("tax.Total", "GoblVerif.Calc.TaxTotal")] := by decide
+    BillCalcSrc.namedTypes.map (fun t => (t.1, t.2.2)) = [("cbc.Key", "String"), ("currency.Code", "String"), ("currency.Def", "Nat"), ("currency.ExchangeRate", "GoblVerif.Calc.XRate"), ("num.Amount", "GoblVerif.Amount"), ("num.Percentage", "GoblVerif.Pct"), ("tax.Set", "List GoblVerif.Calc.Combo"), ("tax.Total", "GoblVerif.Calc.TaxTotal")] := by decide
+
+/-- the error-returning functions (go2lean_errfn.go): which they are (Except-valued; what
+    they wrote before a non-nil error return is forgotten), every error value built from a
+    constant format (arguments dropped), every call of an error function with what is
+    returned on error, and the Lean error type with its two constructors -/
+theorem errors_BillCalcSrc_as_reviewed :
+    BillCalcSrc.errorFunctions = ["calculateLineItemPrice", "calculateSubLine", "calculateLine", "calculateLines"] ∧
+    BillCalcSrc.errorMessages = [("calculateLineItemPrice", "fmt.Errorf(\"invalid currency '%v'\", icur)"), ("calculateLineItemPrice", "fmt.Errorf(\"no exchange rate found from '%v' to '%v'\", item.Currency, cur)")] ∧
+    BillCalcSrc.errorCalls = [("calculateSubLine", "err := calculateLineItemPrice(sl.Item, cur, rates); err != nil { return err }"), ("calculateLine", "err := calculateSubLine(sl, cur, rates, rr); err != nil { return validation.Errors{ \"substituted\": validation.Errors{strconv.Itoa(i): err}, } }"), ("calculateLine", "err := calculateSubLine(sl, cur, rates, rr); err != nil { return validation.Errors{ \"breakdown\": validation.Errors{strconv.Itoa(i): err}, } }"), ("calculateLine", "err := calculateLineItemPrice(l.Item, cur, rates); err != nil { return validation.Errors{ \"item\": err, } }"), ("calculateLines", "err := calculateLine(l, cur, rates, rr); err != nil { return validation.Errors{strconv.Itoa(i): err} }")] ∧
+    BillCalcSrc.errorType = ("GoblVerif.CalcSrc.GoErr", "GoblVerif.CalcSrc.GoErr.msg {0}", "GoblVerif.CalcSrc.GoErr.at {0} {1}") := ⟨rfl, rfl, rfl, rfl⟩
 
 theorem assumptions_PayCalcSrc_as_reviewed :
     PayCalcSrc.translated = ["Advance.CalculateFrom", "Terms.CalculateDues"] ∧
@@ -1382,6 +1397,43 @@ theorem src_CalculateDues (o : Ops) (sub : String → Nat) (t : PayCalcSrc.Terms
       some { t with DueDates := t.DueDates.map (calcDue o zero.exp sum) } ∧
     PayCalcSrc.Terms_CalculateDues o sub none zero sum = none :=
   ⟨CalculateDues_eq o sub t zero sum, CalculateDues_none o sub zero sum⟩
+
+/-! ### the error-returning functions of bill/line_calculate.go (B20)
+
+`toModel f` reads the result of an error function as the model's: `.ok a ↦ .ok (f a)`,
+`.error e ↦ .error (errOf e)` (the model's error by the innermost message).  `toItem sub cur`
+adds what the model's item carries besides the Go fields: the subunits of the item's currency
+(of the document's when it names none).  `hr` says that the model's exchange rates carry the
+subunits of their destination currency (`XRate.toSub`, an input of the model; Go reads
+`er.To.Def()`).  What the Go functions have written through `item` / `sl` before returning an
+error is not part of these statements: see `errors_BillCalcSrc_as_reviewed`. -/
+
+/-- `calculateLineItemPrice` (for an item that has a price: the only way it is called) = `Calc.itemPrice`:
+    own currency, alternative price in the document's currency, exchange rate, "no exchange rate" -/
+theorem src_calculateLineItemPrice (o : Ops) (sub : String → Nat) (it : BillCalcSrc.Item) (p0 : Amount)
+    (hp : it.Price = some p0) (cur : String) (rates : List XRate) (hr : ∀ r ∈ rates, r.toSub = sub r.to) :
+    toModel (toItem sub cur) (BillCalcSrc.calculateLineItemPrice o sub it cur rates)
+      = itemPrice o cur (sub cur) rates (toItem sub cur it) p0 :=
+  calculateLineItemPrice_eq o sub it p0 hp cur rates hr
+
+example : ∃ it : BillCalcSrc.Item, ∃ p0, it.Price = some p0 ∧ it.Currency ≠ "" ∧ it.AltPrices ≠ [] :=
+  ⟨⟨"USD", some ⟨100, 2⟩, [⟨"EUR", ⟨90, 2⟩⟩]⟩, _, rfl, by decide, by decide⟩
+
+/-- `currency.Convert` as the configuration reads it = the model's rate lookup and conversion -/
+theorem src_convertRates (o : Ops) (sub : String → Nat) (rates : List XRate) (hr : ∀ r ∈ rates, r.toSub = sub r.to)
+    (f t : String) (h : f ≠ t) (a : Amount) :
+    convertRates o sub rates f t a = (findRate rates f t).map (fun r => convert o r a) :=
+  convertRates_eq o sub rates hr f t h a
+
+example : ∃ (sub : String → Nat) (rates : List XRate), rates ≠ [] ∧ ∀ r ∈ rates, r.toSub = sub r.to :=
+  ⟨fun _ => 2, [⟨"USD", "EUR", 2, ⟨9, 1⟩⟩], by decide, by simp⟩
+
+/-- `calculateSubLine` = `Calc.calcSubLine`, for every sub-line -/
+theorem src_calculateSubLine (o : Ops) (sub : String → Nat) (sl : BillCalcSrc.SubLine) (cur : String)
+    (rates : List XRate) (rr : String) (hr : ∀ r ∈ rates, r.toSub = sub r.to) :
+    toModel (toSubLine (toItem sub cur)) (BillCalcSrc.calculateSubLine o sub sl cur rates rr)
+      = calcSubLine o cur (sub cur) rates (ruleOf rr) (toSubLine (toItem sub cur) sl) :=
+  calculateSubLine_eq o sub sl cur rates rr hr
 
 /-! ### headline statements of C01 / C03 over the regenerated definitions -/
 
